@@ -256,8 +256,14 @@ def check_case(case, ctx):
             ctx.check(marked <= marked_more, "C07.monotone_buffer",
                       lambda: f"buffer {buffer}->{buffer + 1} unmarked cells {sorted(marked - marked_more)}")
         g2 = make_geometry(req["g2"], rings, hole_rings, bbox)
-        if g2 is not None and not g2.is_empty:
-            union = shapely.union_all([g1, g2])
+        sound = lambda g: g.is_valid and not (g.geom_type == "LineString" and g.length == 0)  # noqa: E731
+        if g2 is not None and not g2.is_empty and sound(g1) and sound(g2):
+            # the enlarged geometry: g1 grown by a hair, joined with g2.  (A plain union of g1
+            # and g2 does not contain g1 exactly: GEOS nodes crossing lines and rounds the new
+            # vertices, so a line that touches a cell in a single point may miss it afterwards.
+            # The margin is far above rounding and far below any cell size.)
+            margin = 1e-7 * max(bbox[2] - bbox[0], bbox[3] - bbox[1], 1.0)
+            union = shapely.union_all([g1.buffer(margin), g2])
             _, marked_union = evaluate_mask(ctx, spec, conv, polygons, union, buffer, "union")
             ctx.check(marked <= marked_union, "C07.monotone_geometry",
                       lambda: f"enlarging the geometry unmarked cells {sorted(marked - marked_union)}")
